@@ -45,7 +45,9 @@ TClose1 == More /\ Ev.e = "Close" /\ CClose(Ev.how) /\ Stay
 TClose2 == SEnd /\ Stay
 TClose3 == More /\ Ev.e = "Close" /\ st.pc = "s_drain" /\ Layout(mem) = Tab(Ev) /\ UNCHANGED vars /\ Eat
 TEnd == More /\ Ev.e = "EndCall" /\ EndCall(Ev.rel) /\ Layout(mem') = Tab(Ev) /\ Eat
-TRel == More /\ Ev.e = "ReleaseHeld" /\ ReleaseHeld(Ev.off) /\ Layout(mem') = Tab(Ev) /\ Eat
+TRel == /\ More /\ Ev.e = "ReleaseHeld" /\ Ev.off \in held
+        /\ \E k \in 1..MaxHeld : k <= Cardinality(held) /\ Nth(held, k) = Ev.off /\ ReleaseHeld(k)
+        /\ Layout(mem') = Tab(Ev) /\ Eat
 TNew == More /\ Ev.e = "NewSegment" /\ NewSegment /\ Layout(mem') = Tab(Ev) /\ Eat
 TraceNext == TNew \/ TChaos \/ TUnary1 \/ TUnary2 \/ TUnary3 \/ TBegin \/ TInput1 \/ TInput2 \/ TInput3 \/ TClose1 \/ TClose2 \/ TClose3
              \/ TEnd \/ TRel
